@@ -378,6 +378,9 @@ func fnFlushAll(ctx *cmdContext, args map[string]any) (output respValue, err err
 	for _, ds := range ctx.cs.dss.allDbs() {
 		if ds == ctx.dsc.ds {
 			ctx.dsc.flush()
+		} else if ctx.execDsc != nil && ds == ctx.execDsc.ds {
+			// running inside EXEC, which already owns this database exclusively
+			ctx.execDsc.flush()
 		} else {
 			ds.newDataStoreCommand().flush()
 		}
